@@ -56,6 +56,7 @@ class Contract:
         self.induction = None
         self.uses = []  # lemma names whose statements are assumed
         self.ghost = []  # statements executed before the body (ghost initialisation)
+        self.domains = []  # (key, type, lambda ast, lineno): schema-domain obligations of a @tables contract
         self.options = {}
         self.lineno = fn.lineno
         n_unnamed = 0
@@ -99,6 +100,15 @@ class Contract:
                 # finite case split on a scalar parameter: the function is verified once per listed value
                 for k, v in kw.items():
                     self.cases[k] = ast.literal_eval(v)
+            elif f == "domain":
+                # domain("<key>", "int"|"float", lambda x: <documented domain>): the json_checker schema entry of the class for <key>
+                # is And(<type>, <predicate>) with a predicate EQUIVALENT to the documented domain, for every value of the type
+                self.domains.append((ast.literal_eval(args[0]), ast.literal_eval(args[1]), args[2], st.lineno))
+            elif f == "type_cases":
+                # finite case split on the STRUCTURE of a parameter (which variables a dataset has, or None): the function is
+                # verified once per listed type; the clauses must be written so that they evaluate under every case
+                for k, v in kw.items():
+                    self.cases["type:" + k] = ast.literal_eval(v)
             elif f == "attr_cases":
                 for k, v in kw.items():
                     self.cases["self." + k] = ast.literal_eval(v)
@@ -204,6 +214,15 @@ class ContractDB:
                     if target in tab:
                         raise SyntaxError("duplicate %s %s" % (d.func.id, target))
                     tab[target] = c
+
+    def callee_contract(self, target):
+        """the contract a CALL SITE sees: the proved one, else the assumed one.  A proved contract declared
+        option(standalone=True) (its clauses are written for its own structural cases and do not evaluate on an arbitrary
+        caller's arguments) leaves call sites to the assumed contract of the same target, which it is meant to imply."""
+        c = self.contracts.get(target)
+        if c is not None and c.options.get("standalone") and target in self.assumed:
+            return self.assumed[target]
+        return c or self.assumed.get(target)
 
     def for_property(self, pid):
         cs = ([c for c in self.contracts.values() if pid in c.props] + [c for c in self.tables.values() if pid in c.props]
